@@ -1,9 +1,12 @@
 package sim
 
 import (
+	"bytes"
+	"encoding/hex"
 	"encoding/json"
 	"fmt"
 	"math/big"
+	"sort"
 	"strings"
 	"time"
 
@@ -15,6 +18,7 @@ import (
 	delegationtypes "github.com/ExocoreNetwork/exocore/x/delegation/types"
 	dogfoodtypes "github.com/ExocoreNetwork/exocore/x/dogfood/types"
 	epochstypes "github.com/ExocoreNetwork/exocore/x/epochs/types"
+	exoevmtypes "github.com/ExocoreNetwork/exocore/x/evm/types"
 	exominttypes "github.com/ExocoreNetwork/exocore/x/exomint/types"
 	distributiontypes "github.com/ExocoreNetwork/exocore/x/feedistribution/types"
 	operatortypes "github.com/ExocoreNetwork/exocore/x/operator/types"
@@ -25,9 +29,11 @@ import (
 	stakingtypes "github.com/cosmos/cosmos-sdk/x/staking/types"
 	"github.com/ethereum/go-ethereum/common"
 	"github.com/ethereum/go-ethereum/common/hexutil"
+	"github.com/ethereum/go-ethereum/crypto"
 	"github.com/evmos/evmos/v16/encoding"
 	evmostypes "github.com/evmos/evmos/v16/types"
 	evmtypes "github.com/evmos/evmos/v16/x/evm/types"
+	feemarkettypes "github.com/evmos/evmos/v16/x/feemarket/types"
 )
 
 // GenesisTime is fixed: nothing in a case may depend on the wall clock.
@@ -95,9 +101,21 @@ type Config struct {
 	MintReward           string
 	DistrEpoch           string
 	CommunityTax         string
-	StakerNative         string // native balance of each staker/operator account
-	NumAVS               int    // funded accounts that act as AVS / task contracts (they call the AVS precompile themselves)
+	StakerNative         string  // native balance of each staker/operator account
+	NumAVS               int     // funded accounts that act as AVS / task contracts (they call the AVS precompile themselves)
+	EVM                  *EVMCfg // nil: default EVM / fee market genesis, no contracts
 	GenesisUndelegations []delegationtypes.UndelegationRecord
+}
+
+// EVMCfg configures the EVM side of a world (property C19).
+type EVMCfg struct {
+	Contracts        bool // place the hand-assembled contracts of evmcode.go into the genesis
+	GatewayContract  bool // the assets-precompile forwarder contract is the configured gateway (instead of the gateway account)
+	NoBaseFee        bool
+	BaseFee          string // initial base fee
+	MinGasPrice      string // decimal
+	MinGasMultiplier string // decimal in [0,1]
+	BlockMaxGas      int64  // 0: no limit
 }
 
 // DefaultConfig returns a small, fully valid world.
@@ -217,6 +235,43 @@ func BuildWorld(cfg Config) (*World, error) {
 		w.AVSKeys = append(w.AVSKeys, NewAccountKey(cfg.Seed, "avs", i))
 		addAcc(w.AVSKeys[i])
 	}
+	// ---- evm contracts and fee market (C19 worlds)
+	if cfg.EVM != nil {
+		evmGen := exoevmtypes.DefaultGenesisState()
+		if cfg.EVM.Contracts {
+			contracts := GenesisContracts()
+			addrs := make([]common.Address, 0, len(contracts))
+			for a := range contracts {
+				addrs = append(addrs, a)
+			}
+			sort.Slice(addrs, func(i, j int) bool { return bytes.Compare(addrs[i][:], addrs[j][:]) < 0 })
+			for _, a := range addrs {
+				code := contracts[a]
+				genAccs = append(genAccs, &evmostypes.EthAccount{
+					BaseAccount: authtypes.NewBaseAccount(sdk.AccAddress(a.Bytes()), nil, 0, 0),
+					CodeHash:    crypto.Keccak256Hash(code).Hex(),
+				})
+				evmGen.Accounts = append(evmGen.Accounts, evmtypes.GenesisAccount{Address: a.Hex(), Code: hex.EncodeToString(code)})
+			}
+		}
+		gs[evmtypes.ModuleName] = cdc.MustMarshalJSON(evmGen)
+		fm := feemarkettypes.DefaultGenesisState()
+		fm.Params.NoBaseFee = cfg.EVM.NoBaseFee
+		if cfg.EVM.BaseFee != "" {
+			v, ok := math.NewIntFromString(cfg.EVM.BaseFee)
+			if !ok {
+				return nil, fmt.Errorf("bad base fee")
+			}
+			fm.Params.BaseFee = v
+		}
+		if cfg.EVM.MinGasPrice != "" {
+			fm.Params.MinGasPrice = math.LegacyMustNewDecFromStr(cfg.EVM.MinGasPrice)
+		}
+		if cfg.EVM.MinGasMultiplier != "" {
+			fm.Params.MinGasMultiplier = math.LegacyMustNewDecFromStr(cfg.EVM.MinGasMultiplier)
+		}
+		gs[feemarkettypes.ModuleName] = cdc.MustMarshalJSON(fm)
+	}
 	gs[authtypes.ModuleName] = cdc.MustMarshalJSON(authtypes.NewGenesisState(authtypes.DefaultParams(), genAccs))
 	gs[banktypes.ModuleName] = cdc.MustMarshalJSON(banktypes.NewGenesisState(
 		banktypes.DefaultParams(), balances, supply, []banktypes.Metadata{}, []banktypes.SendEnabled{}))
@@ -287,6 +342,9 @@ func BuildWorld(cfg Config) (*World, error) {
 	}
 	assetsParams := assetstypes.DefaultParams()
 	assetsParams.ExocoreLzAppAddress = strings.ToLower(w.Gateway.Addr.Hex())
+	if cfg.EVM != nil && cfg.EVM.GatewayContract {
+		assetsParams.ExocoreLzAppAddress = strings.ToLower(ForwarderAddr.Hex())
+	}
 	assetsGenesis := assetstypes.NewGenesis(assetsParams, clientChains, tokens, deposits, operatorAssets)
 	if err := assetsGenesis.Validate(); err != nil {
 		return nil, fmt.Errorf("assets genesis: %w", err)
